@@ -274,10 +274,26 @@ theorem structHost_no_slash {x : Ext} {h : Str} (hx : Ipv6Sound x)
     (hg : structHost x.isIpv6 h = true) : 47 ∉ h :=
   hostOk_no_slash hx (hostOk_of_structHost hx hg)
 
-/-- An accepted MXC URI has no cut whose server part carries an over-large port. -/
-theorem mxcOk_not_bigPort {x : Ext} {s srv media : Str} (hx : Ipv6Sound x)
-    (h : MxcOk x s srv media) :
-    mxc (portTooBig (structHost x.isIpv6)) (fun _ => true) s = false := by
+theorem gramHost_no_slash {v6 : Str → Bool} {h : Str} (hg : gramHost v6 h = true) : 47 ∉ h := by
+  intro hm
+  simp only [gramHost, Bool.or_eq_true, Bool.and_eq_true] at hg
+  rcases hg with ⟨hn, _⟩ | hb
+  · have := (nonEmptyAll_iff.1 hn).2 47 hm
+    simp [dnsChar, alnum, digit, lower, upper, oneOf, bs] at this
+  · obtain ⟨r, rfl, hq⟩ := bracketed_iff.1 hb
+    simp only [Bool.and_eq_true, List.all_eq_true] at hq
+    simp only [List.mem_cons, List.mem_append, List.not_mem_nil, or_false] at hm
+    rcases hm with hm | hm | hm
+    · omega
+    · have := hq.1.2 47 hm
+      simp [ipv6Char, digit, oneOf, bs] at this
+    · omega
+
+/-- An accepted MXC URI has no cut whose server part (with a slash-free host) carries an over-large
+port. -/
+theorem mxcOk_not_bigPort_of {x : Ext} {s srv media : Str} {host : Str → Bool}
+    (hh : ∀ A, host A = true → 47 ∉ A) (h : MxcOk x s srv media) :
+    mxc (portTooBig host) (fun _ => true) s = false := by
   rw [Bool.eq_false_iff]
   intro hb
   obtain ⟨rfl, hns, _, hsrv⟩ := h
@@ -286,12 +302,11 @@ theorem mxcOk_not_bigPort {x : Ext} {s srv media : Str} (hx : Ipv6Sound x)
   simp only [mxc, ht, hd, bs_mxc, beq_self_eq_true, Bool.true_and] at hb
   obtain ⟨srv', m', e, hbig, _⟩ := cutAt_iff.1 hb
   obtain ⟨A, p, rfl, hA, hport, hv⟩ := portTooBig_suffix hbig
-  -- `srv'` has no slash either, so both cuts are at the first slash
   have hns' : 47 ∉ A ++ 58 :: p := by
     intro hm
     simp only [List.mem_append, List.mem_cons] at hm
     rcases hm with hm | hm | hm
-    · exact structHost_no_slash hx hA hm
+    · exact hh A hA hm
     · omega
     · simp only [isPort, Bool.and_eq_true, List.all_eq_true] at hport
       have := hport.2 47 hm; simp [digit] at this
@@ -304,5 +319,10 @@ theorem mxcOk_not_bigPort {x : Ext} {s srv media : Str} (hx : Ipv6Sound x)
     rw [this]; exact cutAt_iff.2 ⟨A, p, rfl, rfl, by simp [hport]; exact hv⟩
   rw [serverOk_not_bigPort hsrv] at hbp
   exact absurd hbp (by simp)
+
+theorem mxcOk_not_bigPort {x : Ext} {s srv media : Str} (hx : Ipv6Sound x)
+    (h : MxcOk x s srv media) :
+    mxc (portTooBig (structHost x.isIpv6)) (fun _ => true) s = false :=
+  mxcOk_not_bigPort_of (fun _ hA => structHost_no_slash hx hA) h
 
 end Ruma.Ids
